@@ -10,7 +10,7 @@ SPEC = {
                     "states during recovery are not judged, only the state once the dump is admissible or 30 s passed"],
     "campaigns": [
         {"name": "crash_histories", "run": "^TestCrashHistories$", "quick": B(3, 8, 900, steps=12, shrinktime="60s"),
-         "thorough": B(40, 14, 3400, steps=25, shrinktime="120s")},
+         "thorough": B(12, 14, 3400, steps=25, shrinktime="120s")},
         {"name": "enumerate_k", "run": "^TestEnumerateK$", "quick": B(1, 8, 900), "thorough": B(1, 14, 3400)},
     ],
     "max_parallel": 18,
